@@ -148,6 +148,11 @@ def profile():
             'fn:generateRandomBytes/1': ('fn', 'qba_random'),
             'ctor:QXmppStunMessage()': ('fn', 'QXmppStunMessage_QXmppStunMessage'),
             'ctor:QStringList()': ('zero',),
+            # the diagnostics list filled by decode(): how many strings it holds is whatever decode's contract leaves open (n >= 0)
+            'QStringList::isEmpty/0': ('expr', '(({0})->n == 0)'),
+            'QStringList::size/0': ('expr', '(({0})->n)'),
+            'QStringList::count/0': ('expr', '(({0})->n)'),
+            'QStringList::join/1': ('const', 'nondet_int()'),
             'ctor:QSetU16()': ('zero',),
             'ctorbase:QXmppLoggable': ('drop',),
             # transactions, pairs
